@@ -103,8 +103,8 @@ func body(r *sim.Run) {
 		case 1: // advance the clock around a token's lifetime
 			tk := sim.Pick(t, toks)
 			target := tk.at.Add(time.Duration(tk.life) * time.Second)
-			off := sim.Pick(t, []int{-2, -1, 0, 1, 2, 59, 60, 61, 3600, 86400})
-			d := time.Until(target.Add(time.Duration(off) * time.Second))
+			off := sim.Pick(t, []int{-2000, -1000, -1, 0, 1, 400, 600, 999, 1000, 2000, 59000, 60000, 61000, 3600000, 86400000})
+			d := time.Until(target.Add(time.Duration(off) * time.Millisecond))
 			if d <= 0 {
 				d = time.Duration(t.Range(1, 90)) * time.Second
 			}
@@ -137,7 +137,10 @@ func body(r *sim.Run) {
 			case u != tk.user:
 				r.Check(err != nil, "C20", "wrong_user", "accepted", "token #%d issued for %s validated for %s", idx, tk.user, u)
 				r.Nontriv = true
-			case age >= lifeD+time.Second:
+			case age >= lifeD:
+				// no slack on this side: the expiry is a whole second no later
+				// than issue + lifetime, so once the lifetime has elapsed the
+				// token is dead whatever fraction of a second it was issued at
 				r.Nontriv = true
 				r.Probe("validate_after_expiry")
 				r.Check(err != nil, "C20", "expiry", "accepted_after_lifetime", "token #%d (lifetime %v) still validates at age %v", idx, lifeD, age)
